@@ -463,3 +463,70 @@ def r_decoder(rule, root=None):
         rule.ok("decoder: Input takes x / y / z by their own slot and any other variable from var_values[slot]", file=TAPE, line=ci["ln"])
     else:
         rule.bad("decoder|input", "the OP_INPUT case must map the slot in the immediate word to xyz[0..2] for the three axes and to var_values[slot] (the same slot, unshifted) otherwise", where)
+
+
+def r_predicates(rule, root=None):
+    """the predicates the interval operations guard with mean what the CPU's do: `contains_i(i, v)` is
+    lower <= v <= upper with both ends included (Interval::contains), `has_nan(i)` looks at both bounds.
+    A strict `contains_i` stops treating [0, k] as containing zero: not / and / or and the zero guard of
+    division then decide (or divide) where the CPU evaluators do not."""
+    d = W.load(IOPS, root)
+
+    def comps(e, out):
+        e_ = e
+        while isinstance(e_, dict) and e_.get("k") == "Paren":
+            e_ = e_["e"]
+        if isinstance(e_, dict) and e_.get("k") == "Binary" and e_["op"] in ("&&", "||"):
+            out.append(e_["op"])
+            comps(e_["left"], out)
+            comps(e_["right"], out)
+        else:
+            out.append(e_)
+
+    fn = d.get("contains_i")
+    if fn is None:
+        rule.lost("WGSL contains_i")
+    else:
+        rets = [s_ for s_ in A.find(fn["body"], "Return")]
+        ok = False
+        why = "its body is not a single conjunction of two comparisons"
+        if len(rets) == 1 and rets[0].get("e") is not None:
+            parts = []
+            comps(rets[0]["e"], parts)
+            ops = [p for p in parts if isinstance(p, str)]
+            cmps = [p for p in parts if not isinstance(p, str)]
+            if ops == ["&&"] and len(cmps) == 2 and all(c.get("k") == "Binary" for c in cmps):
+                canon = set()
+                for c in cmps:
+                    l_, r_ = _norm(A.unparse(c["left"]).replace(" ", "")), _norm(A.unparse(c["right"]).replace(" ", ""))
+                    l_, r_ = [re.sub(r"\.v\.x$", ".v[0]", re.sub(r"\.v\.y$", ".v[1]", t_)) for t_ in (l_, r_)]
+                    op = c["op"]
+                    if op in (">=", ">"):
+                        l_, r_, op = r_, l_, {">=": "<=", ">": "<"}[op]
+                    canon.add((l_, op, r_))
+                # i.v[0] <= v and v <= i.v[1] for whatever the parameters are called
+                lows = [c for c in canon if re.fullmatch(r"\w+\.v\[0\]", c[0]) and re.fullmatch(r"\w+", c[2])]
+                highs = [c for c in canon if re.fullmatch(r"\w+", c[0]) and re.fullmatch(r"\w+\.v\[1\]", c[2])]
+                if len(lows) == 1 and len(highs) == 1 and lows[0][2] == highs[0][0]:
+                    strict = [c for c in (lows[0], highs[0]) if c[1] != "<="]
+                    if strict:
+                        why = "it tests `%s %s %s`: the bounds themselves belong to the interval (Interval::contains uses <= and >=), so [0, k] contains 0" % strict[0]
+                    else:
+                        ok = True
+                else:
+                    why = "it does not test lower <= v and v <= upper"
+        if ok:
+            rule.ok("WGSL contains_i(i, v) = i.lower <= v <= i.upper, both ends included", file=IOPS, line=fn["ln"])
+        else:
+            rule.bad("wgsl|contains_i", "contains_i: %s" % why, _where(fn))
+    fn = d.get("has_nan")
+    if fn is None:
+        rule.lost("WGSL has_nan")
+    else:
+        t = A.unparse(fn["body"]).replace(" ", "")
+        t = re.sub(r"\.v\.x", ".v[0]", re.sub(r"\.v\.y", ".v[1]", t))
+        m = re.search(r"return\(?is_nan\((\w+)\.v\[([01])\]\)\|\|is_nan\(\1\.v\[([01])\]\)\)?;", t)
+        if m and {m.group(2), m.group(3)} == {"0", "1"}:
+            rule.ok("WGSL has_nan(i) looks at both bounds", file=IOPS, line=fn["ln"])
+        else:
+            rule.bad("wgsl|has_nan", "has_nan must be is_nan(lower) || is_nan(upper)", _where(fn))
